@@ -1766,6 +1766,182 @@ fn big_shapes(rng: &mut Rng, thorough: bool, emit: &mut dyn FnMut(String)) {
     }
 }
 
+/// O. BLOCK BOUNDARIES (round 6): every size parameter of the array — height, width, number of items given to the
+/// padding constructor, number / length of the rows of a nested vector, row indices of swaps and writes, reshape
+/// targets — at blk-1, blk, blk+1, blk+2 and 2*blk+1 for blk = 16, 32, 64, 128, 256, the other dimension small (2, 3, 5)
+/// so that the cost stays low, plus a few shapes with BOTH dimensions next to a boundary.  The data are the labels
+/// 1..h*w (all distinct: a block that is transposed, overwritten, left stale or dropped is visible to the grid oracle,
+/// which judges every step).  Each rearranging operation is the FIRST step of some request (two wrong transposes
+/// cancel).  Tall AND wide orientations, and the history route (a wide array reshaped into a tall one, then transposed).
+fn block_dims() -> Vec<usize> {
+    let mut dims: Vec<usize> = vec![];
+    for b in [16usize, 32, 64, 128, 256] {
+        dims.extend([b - 1, b, b + 1, b + 2, 2 * b + 1]);
+    }
+    dims.sort();
+    dims.dedup();
+    dims
+}
+
+fn labelled_rows(h: usize, w: usize) -> (Vec<i64>, Vec<Vec<i64>>) {
+    let data = labels(h, w);
+    let rows = (0..h).map(|r| data[r * w..(r + 1) * w].to_vec()).collect();
+    (data, rows)
+}
+
+fn block_family(rng: &mut Rng, thorough: bool, emit: &mut dyn FnMut(String)) {
+    let dims = block_dims();
+    let mut shapes: Vec<(usize, usize)> = vec![];
+    for (i, &d) in dims.iter().enumerate() {
+        let smalls: &[usize] = if thorough && d < 255 { &[2, 3, 5] } else if thorough { &[2, 3] } else if d >= 255 { &[2] } else { &[[2usize, 3, 5][i % 3]] };
+        for &s in smalls {
+            shapes.push((d, s));
+            shapes.push((s, d));
+        }
+        if thorough {
+            shapes.push((d, 1));
+            shapes.push((1, d));
+        }
+    }
+    // both dimensions next to a boundary (non-square and square)
+    shapes.extend([(15, 17), (17, 16), (18, 33), (33, 31), (34, 17), (63, 17), (17, 65), (65, 66), (66, 64), (65, 65), (64, 64), (63, 66)]);
+    if thorough {
+        shapes.extend([(129, 17), (17, 130), (257, 18), (18, 258)]);
+    }
+    for (i, &(h, w)) in shapes.iter().enumerate() {
+        let size = h * w;
+        // (the list-based model needs about a second per request on 4000 cells: the quick tier sends two requests on
+        // such shapes, the thorough tier all of them)
+        let costly = size > 2600 && !thorough;
+        let (data, rows) = labelled_rows(h, w);
+        let ctor = |k: usize| -> Ctor {
+            match k % 5 {
+                0 => Ctor::Nested(rows.clone()),
+                1 => Ctor::Flat(data.clone(), 0, h, w),
+                2 => Ctor::NestedRef(0, rows.clone()),
+                3 => Ctor::NestedRef(1, rows.clone()),
+                _ => Ctor::Flat(data[..size - size / 3].to_vec(), -7, h, w),
+            }
+        };
+        // row indices on both sides of every boundary below the height
+        let edge = |n: usize, k: usize| -> usize {
+            let c: Vec<usize> = [15usize, 16, 17, 31, 32, 33, 63, 64, 65, 127, 128, 129, 255, 256, 257].iter().copied().filter(|&x| x < n).collect();
+            if c.is_empty() { n - 1 } else { c[c.len() - 1 - k.min(c.len() - 1)] }
+        };
+        // (a) copying transpose first, then rows swapped across the last boundary, in-place transpose back
+        emit(format!("last {}", request(&ctor(i), &[Op::Transpose, Op::Swap(edge(w, 0), edge(w, 1)), Op::TransposeMut, Op::Swap(edge(h, 0), 0), Op::Transpose])));
+        // (b) in-place transpose first
+        if costly {
+            if i % 2 == 0 {
+                emit(format!("last {}", request(&ctor(i + 1), &[Op::TransposeMut, Op::Swap(0, w - 1), Op::Reshape(1), Op::Transpose])));
+            } else {
+                emit(format!("last {}", request(&ctor(i + 1), &[Op::Reshape(w), Op::Transpose, Op::Swap(edge(h, 0), edge(h, 1)), Op::TransposeMut])));
+            }
+            continue;
+        }
+        emit(format!("last {}", request(&ctor(i + 1), &[Op::TransposeMut, Op::Swap(0, w - 1), Op::Transpose, Op::Swap(h - 1, edge(h, 1)), Op::Clone, Op::TransposeMut])));
+        // (c) the history route: reshape into every other height that is next to a boundary (or its cofactor is), then transpose
+        let divs: Vec<usize> = (1..=size).filter(|k| size % k == 0 && *k != h && (dims.contains(k) || dims.contains(&(size / k)) || *k == size || *k == 1)).collect();
+        for (j, &k) in divs.iter().enumerate().take(if thorough { 8 } else { 4 }) {
+            let t = if (i + j) % 2 == 0 { Op::Transpose } else { Op::TransposeMut };
+            emit(format!("last {}", request(&ctor(i + j + 2), &[Op::Reshape(k), t, Op::Swap(0, size / k - 1), Op::Reshape(h), Op::Transpose])));
+        }
+        // (d) row-wise and element-wise operations first: every row / cell must be reached exactly once
+        let rowops = vec![
+            Op::RowsMut { via: (i % 2) as u8, code: 2, a: 0, b: 0 },
+            Op::Map { code: 0, a: 1, b: 0 },
+            Op::RowsMut { via: ((i + 1) % 2) as u8, code: 0, a: 3, b: 100 },
+            Op::Swap(edge(h, 0), edge(h, 1)),
+            Op::FillRow(edge(h, 0), -4),
+            Op::SetRow(edge(h, 1), (0..w as i64).map(|c| -10 - c).collect()),
+            Op::Set(edge(h, 0), edge(w, 0), -5),
+            Op::Set2(h - 1, w - 1, -6),
+            Op::Convert((i % 2) as u8),
+            Op::Map { code: 2, a: 7, b: 3 },
+            Op::Clone,
+            Op::Transpose,
+        ];
+        emit(format!("last {}", request(&ctor(i + 3), &rowops)));
+        emit(format!("last {}", request(&ctor(i + 4), &rowops[1..4])));
+        // (e) invalid arguments one past each size: refused, nothing changes
+        let bad = vec![Op::Reshape(size + 1), Op::Swap(h, 0), Op::Set(h, 0, 1), Op::Set(0, w, 1), Op::Set2(h - 1, w, 1), Op::SetRow(h - 1, vec![1; w + 1]), Op::SetRow(h - 1, vec![1; w - 1]), Op::FillRow(h, 1), Op::TransposeMut];
+        emit(format!("last {}", request(&ctor(i + 2), &bad)));
+    }
+    // (f) the padding constructor with a number of items next to a boundary (and next to the full size)
+    for &(h, w) in &[(2usize, 40usize), (40, 2), (3, 90), (90, 3), (5, 60), (60, 5), (2, 300), (300, 2)] {
+        let size = h * w;
+        let (data, _) = labelled_rows(h, w);
+        let mut keeps: Vec<usize> = dims.iter().copied().filter(|&k| k < size).collect();
+        keeps.extend([size - 1, size, 0, 1]);
+        for &k in &keeps {
+            emit(format!("last {}", request(&Ctor::Flat(data[..k].to_vec(), -9, h, w), &[Op::Transpose, Op::Reshape(w.min(h))])));
+        }
+        let mut over = data.clone();
+        over.push(1);
+        emit(request(&Ctor::Flat(over, -9, h, w), &[Op::Transpose]));
+    }
+    // (g) identity matrices across the boundaries
+    for &n in &[63usize, 64, 65, 66] {
+        if !thorough && n != 65 {
+            continue;
+        }
+        emit(format!("last {}", request(&Ctor::Ident(n), &[Op::Swap(n - 1, 62), Op::Transpose, Op::Reshape(1)])));
+    }
+    // (h) nested vectors with a boundary number of rows or a boundary row length: rectangular, one row deviating at an
+    //     index next to a boundary, and compensated pairs (the total is that of a rectangle)
+    for (i, &d) in dims.iter().enumerate() {
+        if d > 258 {
+            continue;
+        }
+        for &(nrows, w) in &[(d, 1 + i % 3), (2 + i % 3, d)] {
+            let cands: Vec<usize> = [0usize, 14, 15, 16, 17, 31, 32, 33, 63, 64, 65, 127, 128, 129, 255, 256, 257, nrows - 1, nrows - 2].iter().copied().filter(|&x| x < nrows).collect();
+            let variants = if thorough { 8 } else { 4 };
+            for v in 0..variants {
+                let mut lens = vec![w; nrows];
+                let r1 = *rng.pick(&cands);
+                match v % 4 {
+                    0 => lens[r1] = w + 1,
+                    1 => lens[r1] = w - 1,
+                    2 => {
+                        let r2 = *rng.pick(&cands);
+                        if r2 != r1 {
+                            lens[r1] = w + 1;
+                            lens[r2] = w - 1;
+                        } else {
+                            lens[r1] = w + 2;
+                        }
+                    }
+                    _ => {
+                        // a whole row missing from one place and its items spread over `w` other rows is too long to
+                        // build here: the last row carries the items of a dropped first row instead
+                        if nrows >= 3 {
+                            lens[0] = 0;
+                            lens[nrows - 1] = 2 * w;
+                        } else {
+                            lens[r1] = w + 3;
+                        }
+                    }
+                }
+                let mut k = 0i64;
+                let rows: Vec<Vec<i64>> = lens.iter().map(|l| (0..*l).map(|_| { k += 1; k }).collect()).collect();
+                let c = match (i + v) % 3 {
+                    0 => Ctor::Nested(rows),
+                    1 => Ctor::NestedRef(0, rows),
+                    _ => Ctor::NestedRef(1, rows),
+                };
+                emit(request(&c, &[Op::TransposeMut]));
+            }
+            // an inconvertible item beyond a boundary (i64 -> i32): the conversion is refused, not truncated
+            let (_, mut rows) = labelled_rows(nrows, w);
+            let r1 = *rng.pick(&cands);
+            rows[r1][w - 1] = if i % 2 == 0 { I32_MAX + 1 } else { I32_MIN - 1 };
+            emit(format!("last {}", request(&Ctor::NestedRef(1, rows.clone()), &[Op::Transpose])));
+            rows[r1][w - 1] = if i % 2 == 0 { I32_MAX } else { I32_MIN };
+            emit(format!("last {}", request(&Ctor::NestedRef(1, rows), &[Op::Transpose, Op::Convert(1)])));
+        }
+    }
+}
+
 /// text layout: columns mixing signs and widths of 1..20 characters (no arithmetic on the items)
 fn display_family(rng: &mut Rng, thorough: bool, emit: &mut dyn FnMut(String)) {
     let pool: Vec<i64> = {
@@ -1926,6 +2102,10 @@ pub fn generate(seed: u64, thorough: bool, out: &mut dyn FnMut(String)) {
     {
         let mut rng_big = Rng::new(seed ^ 0xC12B16);
         big_shapes(&mut rng_big, thorough, &mut |l| heavy.push(l));
+        let mut rng_blk = Rng::new(seed ^ 0xC12B64);
+        // (the same requests in both tiers: the list-based model is slow on these shapes)
+        let _ = thorough;
+        block_family(&mut rng_blk, false, &mut |l| heavy.push(l));
     }
     let mut heavy_it = heavy.into_iter();
     let mut count = 0usize;
